@@ -43,7 +43,9 @@ func (r *Replayer) Replay(process func(record []byte) error) (err error) {
 		}
 	}()
 
-	for _, path := range walFiles {
+	for i, path := range walFiles {
+		// only the newest file can have been cut by a crash, a torn tail there is the end of the log
+		isLast := i == len(walFiles)-1
 		reader, err := r.walOptions.readerFactory(path)
 		if err != nil {
 			return fmt.Errorf("error while creating WAL reader under '%s': %w", path, err)
@@ -52,13 +54,17 @@ func (r *Replayer) Replay(process func(record []byte) error) (err error) {
 
 		err = reader.Open()
 		if err != nil {
+			// the file was created but its header never reached the disk: nothing was logged in it
+			if isLast && (errors.Is(err, io.EOF) || errors.Is(err, io.ErrUnexpectedEOF)) {
+				break
+			}
 			return fmt.Errorf("error while opening WAL reader under '%s': %w", path, err)
 		}
 
 		for {
 			bytes, err := reader.ReadNext()
 			// io.EOF signals that no records are left to be read
-			if errors.Is(err, io.EOF) {
+			if errors.Is(err, io.EOF) || (isLast && errors.Is(err, io.ErrUnexpectedEOF)) {
 				break
 			}
 
